@@ -83,13 +83,24 @@ def construct (v : Variant) (ik : Nat) (sentinel dflt : α) : Option (Tree α) :
               (Array.replicate (2 * k) raw)
     pure { v := v, ik := ik, k := k, losers := a }
 
-/-- `insert_start(keyp, source, sup)`; `key = none` ≙ `keyp == nullptr`, `sup == true` -/
+/-- the entry made from the arguments `(keyp, sup)` of `insert_start` / `delete_min_insert`:
+`key = none` ≙ `keyp == nullptr`, `sup == true` (`dflt` = `ValueType()`) -/
+def mkEntry (dflt : α) (key : Option α) (source : Nat) : Entry α :=
+  match key with
+  | some x => { sup := false, source := source, key := x }
+  | none => { sup := true, source := source, key := dflt }
+
+/-- `insert_start(keyp, source, sup)` -/
 def Tree.insertStart (t : Tree α) (dflt : α) (key : Option α) (source : Nat) : Option (Tree α) := do
-  let e : Entry α := match key with
-    | some x => { sup := false, source := source, key := x }
-    | none => { sup := true, source := source, key := dflt }
-  let a ← wr t.losers (t.k + source) e
+  let a ← wr t.losers (t.k + source) (mkEntry dflt key source)
   pure { t with losers := a }
+
+/-- `for (t = i; t < k; ++t) insert_start(key of player t, t, …)` as every user does -/
+def insertFrom (dflt : α) : List (Option α) → Nat → Tree α → Option (Tree α)
+  | [], _, t => some t
+  | key :: ks, i, t => do
+    let t' ← t.insertStart dflt key i
+    insertFrom dflt ks (i + 1) t'
 
 /-- the test of `init_winner`: "left one is less or equal" -/
 def leftWins (guarded : Bool) (lt : α → α → Bool) (L R : Entry α) : Bool :=
@@ -160,13 +171,18 @@ decreasing_by all_goals omega
 def Tree.deleteMinInsert (t : Tree α) (lt : α → α → Bool) (dflt : α) (key : Option α) : Option (Tree α) := do
   let W ← rd t.losers 0
   let source := W.source
-  let cand : Entry α := match key with
-    | some x => { sup := false, source := source, key := x }
-    | none => { sup := true, source := source, key := dflt }
   let pos := ((t.k + source) % 4294967296) / 2
-  let (c, a) ← replay t.v lt pos cand t.losers
+  let (c, a) ← replay t.v lt pos (mkEntry dflt key source) t.losers
   let a' ← wr a 0 c
   pure { t with losers := a' }
+
+/-- construct a tree for `keys.length` players, `insert_start` every player's first key
+(`none` = the player starts exhausted), `init()` -/
+def Tree.start (v : Variant) (lt : α → α → Bool) (sentinel dflt : α) (keys : List (Option α)) :
+    Option (Tree α) := do
+  let t ← construct v keys.length sentinel dflt
+  let t ← insertFrom dflt keys 0 t
+  t.init lt
 
 /-- `min_source()` -/
 def Tree.minSource (t : Tree α) : Option Nat := do
